@@ -34,8 +34,26 @@
 #include "fileio/write_uf2.h"
 #include "fileio/write_wdc.h"
 
+// A source without a CPU directive is assembled for the MSP430, the
+// default of AsmContext::init(), with cpu_list_index left at -1.
+static const CpuList *get_cpu_info(AsmContext *asm_context)
+{
+  int index = asm_context->cpu_list_index;
+
+  if (index < 0)
+  {
+    for (index = 0; cpu_list[index].name != NULL; index++)
+    {
+      if (cpu_list[index].type == CPU_TYPE_MSP430) { break; }
+    }
+  }
+
+  return &cpu_list[index];
+}
+
 int file_write(const char *filename, AsmContext *asm_context, int file_type)
 {
+  const CpuList *cpu_info = get_cpu_info(asm_context);
   FILE *out = fopen(filename, "wb");
 
   if (out == NULL) { return -1; }
@@ -55,7 +73,7 @@ int file_write(const char *filename, AsmContext *asm_context, int file_type)
     write_srec(
       &asm_context->memory,
       out,
-      cpu_list[asm_context->cpu_list_index].srec_size);
+      cpu_info->srec_size);
   }
     else
   if (file_type == FILE_TYPE_ELF)
@@ -66,7 +84,7 @@ int file_write(const char *filename, AsmContext *asm_context, int file_type)
       &asm_context->symbols,
       asm_context->tokens.filename,
       asm_context->cpu_type,
-      cpu_list[asm_context->cpu_list_index].alignment);
+      cpu_info->alignment);
   }
     else
   if (file_type == FILE_TYPE_WDC)
@@ -87,7 +105,7 @@ int file_write(const char *filename, AsmContext *asm_context, int file_type)
       &asm_context->symbols,
       asm_context->tokens.filename,
       asm_context->cpu_type,
-      cpu_list[asm_context->cpu_list_index].alignment);
+      cpu_info->alignment);
   }
     else
   if (file_type == FILE_TYPE_UF2)
